@@ -93,16 +93,23 @@ Proof.
 Qed.
 
 (* CheckTree between trees of the same size accepts only the same root *)
+Lemma run_tree_same f (p : list Hsh) n h : 1 <= n ->
+  run_tree_proof Hsh hnode (S f) p 0 n n h = match p with [] => RVal (h, h) | _ => RFailed end.
+Proof.
+  intros Hn. cbn [run_tree_proof].
+  assert (G1 : (0 <? n) && (n <=? n) = true).
+  { apply andb_true_intro. split; [apply N.ltb_lt|apply N.leb_le]; lia. }
+  rewrite G1, N.eqb_refl. cbn [negb]. reflexivity.
+Qed.
+
 Lemma check_tree_same_size p n th h : check_tree p n th n h = Ok -> th = h.
 Proof.
   unfold Proofs.check_tree.
   destruct ((n <? 1) || (n <? 1) || (n <? n)) eqn:G; [discriminate|].
-  change 64%nat with (S 63).
-  cbn [run_tree_proof].
-  assert (G1 : (0 <? n) && (n <=? n) = true).
+  assert (Hn : 1 <= n).
   { apply orb_false_elim in G. destruct G as [G _]. apply orb_false_elim in G. destruct G as [G _].
-    apply N.ltb_ge in G. apply andb_true_intro. split; [apply N.ltb_lt|apply N.leb_le]; lia. }
-  rewrite G1, N.eqb_refl. cbn [negb]. change (0 =? 0) with true. cbn iota.
+    apply N.ltb_ge in G. exact G. }
+  change 64%nat with (S 63). rewrite (run_tree_same 63 p n h Hn).
   destruct p; [|discriminate].
   destruct (heqb h th && heqb h h) eqn:Q; [|discriminate].
   intros _. apply andb_prop in Q. destruct Q as [Q _]. apply heqb_eq in Q. auto.
@@ -337,14 +344,14 @@ Lemma code_not_signed m old p t sigs vs :
   exists e, add_front Hsh m (ABody old p (NNote t sigs)) = inl e /\ (status_of e = 403 \/ status_of e = 400).
 Proof.
   intros H Hall. destruct (add_front Hsh m (ABody old p (NNote t sigs))) as [e|a] eqn:E.
-  - exists e. split; auto. cbn in E. cbn in H. rewrite H in E.
+  - exists e. split; auto. unfold Model.add_front in E. cbn [note_origin] in E. rewrite H in E.
     destruct (open_note Hsh vs (NNote t sigs)) as [t' ver|oe] eqn:Ho.
-    + apply open_note_ok in Ho. destruct Ho as (sigs' & Hn & Hne & Hv). inversion Hn; subst.
+    + exfalso. apply open_note_ok in Ho. destruct Ho as (sigs' & Hn & Hne & Hv). inversion Hn; subst.
       destruct ver as [|s0 r]; [congruence|]. destruct (Hv s0 (or_introl eq_refl)) as (H1 & H2 & H3).
       rewrite (Hall s0 H1 H3) in H2. discriminate.
     + destruct oe; inversion E; cbn; auto.
   - exfalso. apply add_front_inr in E. destruct E as (sigs' & vs' & Hb & Hvs & _ & Hne & Hv).
-    inversion Hb; subst. cbn in H. rewrite H in Hvs. inversion Hvs; subst.
+    inversion Hb; subst. cbn [text_origin] in H. rewrite H in Hvs. inversion Hvs; subst.
     destruct (ap_sigs Hsh a) as [|s0 r]; [congruence|]. destruct (Hv s0 (or_introl eq_refl)) as (H1 & H2 & H3).
     rewrite (Hall s0 H1 H3) in H2. discriminate.
 Qed.
@@ -361,7 +368,7 @@ Lemma code_old_gt_new cache reg fok stamp (a : add_parsed Hsh) :
   ap_new Hsh a < ap_old Hsh a -> Model.add_locked Hsh hnode hempty heqb cache reg fok stamp a = LErr Hsh EBadRequest cache.
 Proof. intros H. unfold Model.add_locked. apply N.ltb_lt in H. rewrite H. reflexivity. Qed.
 
-Lemma code_conflict cache reg fok stamp (a : add_parsed Hsh) known :
+Lemma code_conflict (cache reg : option regval) (fok : bool) stamp (a : add_parsed Hsh) (known : regval) :
   ap_old Hsh a <= ap_new Hsh a -> (ap_new Hsh a = 0 -> ap_root Hsh a = hempty) ->
   (match cache with Some v => Some v | None => if fok then reg else None end) = Some known ->
   known_size known <> ap_old Hsh a ->
@@ -376,7 +383,7 @@ Proof.
   rewrite E2, H3. apply N.eqb_neq in H4. rewrite H4. reflexivity.
 Qed.
 
-Lemma code_proof cache reg fok stamp (a : add_parsed Hsh) known :
+Lemma code_proof (cache reg : option regval) (fok : bool) stamp (a : add_parsed Hsh) (known : regval) :
   ap_old Hsh a <= ap_new Hsh a ->
   (match cache with Some v => Some v | None => if fok then reg else None end) = Some known ->
   known_size known = ap_old Hsh a ->
@@ -397,7 +404,7 @@ Proof.
     + rewrite Hz. cbn. destruct (ap_proof Hsh a); [congruence|]. eexists; reflexivity.
     + apply N.eqb_neq in Hnz. rewrite Hnz. cbn [negb].
       assert (Sp : spin_bound <? ap_new Hsh a = false) by (apply N.ltb_ge; lia). rewrite Sp, andb_false_r.
-      destruct (check_tree _ _ _ _ _); try congruence; destruct (origin_signable _); eexists; reflexivity.
+      destruct (check_tree _ _ _ _ _); try congruence; eexists; reflexivity.
 Qed.
 
 (* a request that is answered with an error other than the store failure changes neither the
@@ -468,9 +475,9 @@ Lemma select_signers_nonempty c ver :
 Proof.
   destruct ver as [|s r]; [congruence|]. intros _ H. specialize (H s (or_introl eq_refl)). cbn.
   unfold sub_verifiers in H. destruct H as [H|H].
-  - rewrite <- H, N.eqb_refl. discriminate.
+  - rewrite <- H, N.eqb_refl. cbn [app]. discriminate.
   - destruct (wc_m c) as [m|]; [|destruct H]. destruct H as [H|[]]. rewrite <- H, N.eqb_refl.
-    destruct (sg_key s =? wc_w2 c); discriminate.
+    destruct (m =? wc_w2 c); cbn [app]; discriminate.
 Qed.
 
 (* C16: an answer with signatures implies everything the property asks for *)
